@@ -31,6 +31,9 @@ type PolD struct {
 	FBKind string // Result Error Echo WrapErr
 	FBR    int64
 	FBE    *ErrD
+	// Retry, harness only: another bound is set on the same builder BEFORE the one that counts ("unlimited": WithMaxRetries(-1),
+	// "attempts": WithMaxAttempts(9), "retries": WithMaxRetries(7)); the later call must replace it whichever setter it uses
+	PreMax string
 	// Retry: how long the policy's own OnFailure listener takes (it does not watch for the cancellation)
 	LsnDur int64
 	// how long the fallback's own OnFailure listener and the fallback function take (neither watches for the cancellation);
